@@ -12,13 +12,13 @@ PY_FORMS = ["py"]
 ND = ["nd", "ndF", "ndS", "ndD", "ndR", "ndFD", "ndTD", "ndB"]
 XOBJ = ["xobj-same", "xobj-other", "xobj-ctx", "xobj-kind", "xobj-nested", "xobj-slack", "ref-same", "ref-foreign", "xobj-view", "xobj-nested-view", "xobj-twin", "xobj-capslack",
         "xobj-dyn", "xobj-dyn-view", "xobj-dyn-len"]  # xobj-dyn*: a static-shape array built from an object of the all-dynamic class of the same shape
-CAP = ["cap"]
+CAP = ["cap", "cap-np"]  # cap-np: the capacities are numpy integers (a length computed with numpy)
 # arrays of static items given by their dynamic extents (python int / small numpy integers), items assigned one by one afterwards
 LEN = ["len", "len-i8", "len-i16"]
 LEN_KIND = {"len": int, "len-i8": np.int8, "len-i16": np.int16}
 
 
-def cap_transform(t, v, c=None):
+def cap_transform(t, v, c=None, capkind=int):
     """capacity form: every string is given as an integer capacity and reads back empty.
     Returns (argument tree in 'py' shape, expected value tree) or None if the type has no string."""
     if c is None:
@@ -26,20 +26,20 @@ def cap_transform(t, v, c=None):
     k = t[0]
     if k == "Str":
         n = c.nxt()
-        return [3, 8, 5, 16, 1, 11][n % 6], ""
+        return capkind([3, 8, 5, 16, 1, 11][n % 6]), ""
     if k == "S":
         return v, v
     if k == "St":
         a, e = {}, {}
         for n, ft in t[1]:
-            a[n], e[n] = cap_transform(ft, v[n], c)
+            a[n], e[n] = cap_transform(ft, v[n], c, capkind)
         return a, e
     if k == "A":
         shape = v["shape"]
         ev = {}
         av = {}
         for idx, iv in v["items"].items():
-            av[idx], ev[idx] = cap_transform(t[1], iv, c)
+            av[idx], ev[idx] = cap_transform(t[1], iv, c, capkind)
 
         def rec(prefix, d):
             if d == len(shape):
@@ -50,11 +50,11 @@ def cap_transform(t, v, c=None):
     if k == "R":
         if v is None:
             return None, None
-        return cap_transform(t[1], v, c)
+        return cap_transform(t[1], v, c, capkind)
     if k == "U":
         if v is None:
             return None, None
-        a, e = cap_transform(t[1][v[0]], v[1], c)
+        a, e = cap_transform(t[1][v[0]], v[1], c, capkind)
         return (xt.build(t[1][v[0]]).__name__, a), (v[0], e)
 
 
@@ -95,7 +95,7 @@ def forms_for(t, v, want):
                 out.append(f)
         elif f in XOBJ:
             out.append(f)
-        elif f == "cap":
+        elif f in ("cap", "cap-np"):
             if has_str and xt.py_expressible(t, v):
                 out.append(f)
         elif f in LEN:
@@ -310,8 +310,8 @@ def execute(t, v, form, pname, salt=0):
         arg = xt.to_py(t, v)
     elif form in ND:
         arg = xt.to_nd(t, v, form)
-    elif form == "cap":
-        arg, o.expect = cap_transform(t, v)
+    elif form in ("cap", "cap-np"):
+        arg, o.expect = cap_transform(t, v, None, int if form == "cap" else np.int64)
         o.size_model = None
     elif form in LEN:
         arg = len_arg(t, v, LEN_KIND[form])
@@ -396,7 +396,7 @@ def case_id(t, vmode, form, pname):
 
 def feats(t, vmode, form, pname):
     f = xt.features(t)
-    f.update(vmode=vmode, form=form, place=pname, formclass=("nd" if form in ND else "xobj" if form in XOBJ else "len" if form in LEN else form))
+    f.update(vmode=vmode, form=form, place=pname, formclass=("nd" if form in ND else "xobj" if form in XOBJ else "len" if form in LEN else "cap" if form in CAP else form))
     return f
 
 
